@@ -4,12 +4,14 @@ package replication
 
 import (
 	"context"
+	"crypto/tls"
 	"encoding/json"
 	"errors"
 	"hash"
 	"net"
 	"time"
 
+	"github.com/basekick-labs/arc/internal/cluster/protocol"
 	zz "github.com/basekick-labs/arc/internal/zzverif"
 	"github.com/rs/zerolog"
 )
@@ -123,5 +125,48 @@ func VerifC24Send() {
 	}
 	zz.Assert(int64(n-queued) == s.totalEntriesDropped.Load(), "a sequence number is missing from the stream without being counted as dropped")
 	zz.Assert(s.sequence.Load() == uint64(n), "sequence numbers were not assigned one per entry")
+	zz.Reach("end")
+}
+
+// ---- reconnect: the handshake must not move the receiver's applied position ----
+
+var c24Ack *protocol.ReplicateSyncAck
+
+func c24Dial(network, addr string, timeout time.Duration, tlsCfg *tls.Config) (net.Conn, error) {
+	return c24Conn{}, nil
+}
+func c24Nonce() (string, error) { return "nonce", nil }
+func c24RecvAck(conn net.Conn, timeout time.Duration) (*protocol.Message, error) {
+	return &protocol.Message{Type: protocol.MsgReplicateSyncAck, Payload: c24Ack}, nil
+}
+func c24SessionKey(secret, nonce string) ([]byte, error) { return []byte("k"), nil }
+
+// VerifC24Reconnect: a reader that has applied everything up to sequence L reconnects: the
+// real Receiver.connect runs the handshake against an arbitrary acknowledgement (any
+// current sequence of the writer, resumable or not), then the real receiveLoop is fed two
+// genuine frames whose sequence numbers advance beyond L. Whatever the acknowledgement
+// said, both are applied, in order: the handshake must not make the receiver reject (and
+// so lose) entries it has not applied yet.
+func VerifC24Reconnect() {
+	rec := &c24Recorder{}
+	r := &Receiver{cfg: &ReceiverConfig{ReaderID: "r1", ClusterName: "c", SharedSecret: "s", WriterAddr: "w:9100", IngestHandler: rec}, logger: zerolog.Nop(),
+		ctx: context.Background()}
+	r.running.Store(true)
+	last := zz.Uint64("applied_before_reconnect")
+	r.lastSeq.Store(last)
+	c24Ack = &protocol.ReplicateSyncAck{CurrentSequence: zz.Uint64("writer_current_sequence"), CanResume: zz.Bool("can_resume")}
+	err := r.connect()
+	zz.Assert(err == nil, "handshake with an accepting writer failed")
+	s1, s2 := zz.Uint64("seq_1"), zz.Uint64("seq_2")
+	zz.Assume(s1 > last && s2 > s1)
+	c24Script, c24Next = nil, 0
+	for i, s := range []uint64{s1, s2} {
+		b, merr := json.Marshal(ReplicateEntry{Sequence: s, TimestampUS: 1, Payload: []byte{byte(i)}, Tag: "0011223344556677"})
+		zz.Assert(merr == nil, "marshal")
+		c24Script = append(c24Script, c24Frame{typ: MsgReplicateEntry, payload: b})
+	}
+	r.receiveLoop()
+	zz.Assert(len(rec.applied) == 2 && rec.applied[0] == 0 && rec.applied[1] == 1, "an entry the reader had not applied yet was rejected after a reconnect")
+	zz.Assert(r.lastSeq.Load() == s2, "the receiver's last sequence differs from the last applied entry")
 	zz.Reach("end")
 }
